@@ -20,7 +20,7 @@ RULE = ("histories = 1-3 Model subclass hierarchies of depth 0-6 built with type
         "inheritance (every class lists the next level first, then any later ones; 8 % with a reversed base list that must be "
         "refused), a quarter of the classes with falsy instances (__bool__ False, __len__ 0), a quarter with a step-defining mixin "
         "placed AFTER Model in the bases (must never run) + 1-4 instances (several of one class too) + 4-30 interleaved "
-        "step(*args, **kwargs) calls with matching and mismatching argument lists (0-3, sometimes 6 arguments; in 30 % of the "
+        "step(*args, **kwargs) calls - made directly or through an AgentSet holding the model (do / shuffle_do / map(\"step\")) - with matching and mismatching argument lists (0-3, sometimes 6 arguments; in 30 % of the "
         "histories the arguments are twelve exotic objects - None, float, str, tuple, bool, 2**70, numpy scalar, 0-d array, [], dict, "
         "Decimal, Fraction - mapped back by identity), run_model() and running = True/False (also numpy bools, ints, str, None as the flag), pickle round trips (protocols 0-5 and "
         "default, directly or through a pickled agent / AgentSet of the model) and deepcopies of an instance mid-history with stepping "
@@ -156,7 +156,8 @@ def _gen_history(rng):
         i = rng.randrange(len(inst_cls))
         if r < 0.62:
             args, nkw = _gen_args(rng, classes[inst_cls[i]], exotic)
-            ops.append(["step", i, args, nkw])
+            # a call of model.step() by ANY caller: directly, or through an AgentSet holding the model - do / shuffle_do / map("step")
+            ops.append(["step", i, args, nkw, rng.choice([0, 0, 0, 1, 2, 3])])
         elif r < 0.8:
             ops.append(["run", i, FUEL])
         elif r < 0.87 and len(inst_cls) < 6:
@@ -219,7 +220,7 @@ def _scale_case(t, variant):
     far = [_lvl(True, -1, stop=t + 2)]
     kinds = CLONE_KINDS
     ops = [["new", 0], ["new", 1], ["run", 0, t + 5],                      # -> steps = t - 2 through run_model
-           ["step", 0, [], 0], ["step", 0, [], 0], ["step", 0, [], 0],    # t - 1, t, t + 1 through direct calls
+           ["step", 0, [], 0, 1], ["step", 0, [], 0, 2], ["step", 0, [], 0, 3],    # t - 1, t, t + 1 through AgentSet do / shuffle_do / map
            ["clone", 0, kinds[t % len(kinds)]], ["step", 2, [], 0], ["step", 2, [], 0],
            ["set_running", 0, True, 1], ["run", 0, 5], ["set_running", 2, True, 3], ["run", 2, 5],
            ["run", 1, t + 8],                                             # 0 -> t + 2 in one run_model
@@ -534,8 +535,13 @@ class _Driver:
             pos = sent[: len(args) - nkw]
             kw = {f"p{j}": sent[j] for j in range(len(args) - nkw, len(args))}
             status = [0]
+            via = op[4] if len(op) > 4 else 0
             try:
-                m.step(*pos, **kw)
+                if via == 0:
+                    m.step(*pos, **kw)
+                else:
+                    aset = self.mesa.agent.AgentSet([m], random=m.random)
+                    getattr(aset, ["do", "shuffle_do", "map"][via - 1])("step", *pos, **kw)
             except TypeError:
                 status = [-1, 2]
             except (_Boom, StopIteration, KeyError, AttributeError, IndexError, GeneratorExit) as e:
@@ -667,7 +673,7 @@ def op_kinds(case):
     out = [f"scale/{case['scale']}steps"] if case.get("scale") else []
     for op in case["ops"]:
         if op[0] == "step":
-            out.append(f"step/{len(op[2])}args/{op[3]}kw")
+            out.append(f"step/{len(op[2])}args/{op[3]}kw" + (["", "/via-do", "/via-shuffle_do", "/via-map"][op[4]] if len(op) > 4 else ""))
         elif op[0] == "clone":
             out.append(f"clone/{op[2]}")
         elif op[0] == "set_running":
